@@ -40,9 +40,9 @@ claim("C10",
   "The substituted start frame is returned iff enabled && index==0 && present (get_frame, all sizes); override_start_value replaces (not merges) and preserves wf/linked; the enable flag is on exactly for NotStarted and for Active && !repeating && !reversing (prepare_frame against an arbitrary callee result), and the flags mean 'first forward pass' (lemma over get_position's contract).",
   "A1, A2, A3. " + KNOTE, "DESIGN.md section 5 C10")
 claim("C11",
-  "Kani contract harness on TimelineBuilderArguments::from (sort executed, N in {0..5, 7} keyframes, symbolic positions)",
-  "For 0..5 and 7 keyframes in any insertion order with fully symbolic positions: keyframes come out sorted, boundary_times[i] is keyframe i's position, nothing lost or duplicated, timing reaches the TimeScale. Bounded in the number of keyframes (labelled bounded, not counted as proved); the downstream contracts (C01) take the sorted list, so equal sorted lists give equal timelines.",
-  "bounded: N in {0..5, 7}. " + KNOTE, "DESIGN.md section 5 C11")
+  "Kani contract harness on TimelineBuilderArguments::from (sort executed, N in {0..5, 7, 8, 9} keyframes, symbolic positions)",
+  "For 0..5, 7, 8 (9 in the thorough tier) keyframes in any insertion order with fully symbolic positions: keyframes come out sorted, boundary_times[i] is keyframe i's position, nothing lost or duplicated, timing reaches the TimeScale. Bounded in the number of keyframes (labelled bounded, not counted as proved); the downstream contracts (C01) take the sorted list, so equal sorted lists give equal timelines.",
+  "bounded: N in {0..5, 7, 8, 9}. " + KNOTE, "DESIGN.md section 5 C11")
 claim("C12",
   "Kani harnesses on MergedTimeline over arbitrary abstract component timelines (0..5 components)",
   "update = components applied in order (later wins), start_with reaches each once, delay=min, duration=max, repeat=max (Repeat is a total order), cycle=common-or-None, clone equivalent, single wrap transparent, disjoint components commute. Bounded in the number of components (0..5), components themselves arbitrary.",
